@@ -179,6 +179,8 @@ void set_hardware_concurrency(unsigned n);
 Result run(const std::function<void()>& main_fn, const Config& cfg);
 // observer of visible operations in execution order: (tid, kind, object id, value before, value after)
 void set_observer(std::function<void(int, int, int, long long, long long)> f);
+// GUIDED: atomic loads count only for the objects accepted by this filter (default: none; K_LOAD in guided_kinds counts all)
+void set_guided_load_filter(std::function<bool(int)> f);
 void set_abort_handler(std::function<void(Result&)> h);   // called (then _exit) on deadlock / livelock
 int self();
 void access(const void* addr, bool write);          // announce a plain-memory access for the happens-before check
